@@ -116,6 +116,12 @@ pub trait IVP {
     /// where `dim` is the length of `y`. The user can fill the matrix via Index/IndexMut,
     /// e.g., `m[(row, col)] = value`.
     fn mass(&self, m: &mut Matrix) {
-        Matrix::identity(m.nrows());
+        // `Identity` storage already is the identity (and cannot be written); the other
+        // storages arrive zero-initialised, so the default writes the unit diagonal.
+        if !matches!(m.storage, MatrixStorage::Identity) {
+            for i in 0..m.nrows().min(m.ncols()) {
+                m[(i, i)] = 1.0;
+            }
+        }
     }
 }
